@@ -537,7 +537,9 @@ def run_fit_case(ctx, case):
                     ctx.discard("reference-profile-not-finite")
                     continue
                 rise = max(r - c_hat, 0.0)
-                if yv - r > ptol + ptol * rise and yv - r > 5e-2 and not (rec and rec.flag_for_point(kk, len(xs)) is False):
+                # (iminuit only: there the walk from point to point is MINUIT's own mnprofile; the scipy adapter's walk is kafe2 code and
+                # is held to the branch that is connected to the optimum)
+                if minimizer == "iminuit" and yv - r > ptol + ptol * rise and yv - r > 5e-2:
                     if inner_problem_has_local_minimum_at(cost, p_hat, free_idx, {i: float(xv)}, sig, float(yv), 10 * (ptol + ptol * rise), seed=case["aux_seed"]):
                         ctx.discard("profile-point-on-a-second-local-minimum-of-the-inner-problem")
                         continue
